@@ -11,7 +11,7 @@
    the undefined-function outcomes are covered exactly by evalL/runL, S with the lookup time of an undefined
    operator (left open by CLHS 3.1.2.1.2.3) as a parameter - section (9b). *)
 From Coq Require Import List ZArith String Permutation.
-From C08 Require Import Model Spec Proofs ProofsLate ProofsProgram.
+From C08 Require Import Model Spec Proofs ProofsLate ProofsProgram ProofsFmak.
 Import ListNotations.
 Open Scope list_scope.
 
@@ -102,7 +102,8 @@ Print Assumptions C08_order_independent.
 (* (8) Histories: EVERY sequence of {read a code object, Code.Compile it, evaluate it} - any definitions and
    redefinitions, any bodies, in any order - gives, evaluation by evaluation, S's outcome (equal where S is
    binding; never a value where S has none), from the empty state.  No guard: this is the statement that was
-   refuted for the unrepaired code (C08_refinement_needs_guard_refuted, removed with repo_fixes/C08-3). *)
+   refuted for the unrepaired code (C08_refinement_needs_guard_refuted, removed with repo_fixes/C08-3).
+   Subsumed by (12) C08_history_refines_fmak, which has no `no_fmak` hypothesis. *)
 Theorem C08_history_refines : forall n ops, no_fmak ops = true -> Forall2 osim (runS n sinit ops) (runM n minit ops).
 Proof. exact history_refines. Qed.
 Print Assumptions C08_history_refines.
@@ -214,8 +215,8 @@ Print Assumptions C08_closure_replaced.
    C08-fmakunbound-orphaned-callers - a caller compiled earlier signals undefined-function while the name is
    unbound (was 1), a call compiled meanwhile and the earlier caller both follow the next definition ((2 2), was
    (1 2)), and the redefinition at once is seen by the old caller (2).  The correspondence compares every outcome
-   of every history with S; the THEOREMS (8), (9b) are still stated for histories without OFmak (`no_fmak`): the
-   invariant has no clause yet for a registered Lambda without a creator (left open). *)
+   of every history with S.  (8) and (9b) are stated for histories without OFmak (`no_fmak`); (12) at the end of this
+   file proves the refinement (8) for every history with OFmak, (12b) shows that the exactness (9b) does not extend. *)
 Theorem C08_fmakunbound_repaired :
   runM 50 minit fmak_ops1 = [(Val (VSym "h"), []); (Err EUndefined, [])] /\
   runS 50 sinit fmak_ops1 = [(Val (VSym "h"), []); (Err EUndefined, [])] /\
@@ -330,3 +331,137 @@ Theorem C08_inherit_go_caller_refuted :
   srun (sinit_i gof1) stale_ops = [(RGo, true); (RVal 7, false)].
 Proof. exact inherit_go_caller_refuted. Qed.
 Print Assumptions C08_inherit_go_caller_refuted.
+(* (12) Histories WITH fmakunbound.  EVERY sequence of {read a code object, Code.Compile it, evaluate it,
+   (fmakunbound 'name)} - any definitions, redefinitions and un-definitions, in any order - gives, evaluation by
+   evaluation and compilation by compilation, S's outcome (equal where S is binding; never a value where S has none),
+   from the empty state.  No hypothesis on the history: this subsumes C08_history_refines (8), which is kept.  In
+   property terms: a caller compiled before a (fmakunbound 'f) signals undefined-function while f is unbound and
+   follows the next definition of f, exactly like the list form - for every program of the modelled language.
+   Proved over a weaker invariant (ProofsFmak.v, FM.Inv: a compiled call may hold the registered Lambda of a name
+   without a creator, which is then a placeholder). *)
+Theorem C08_history_refines_fmak : forall n ops, Forall2 osim (runS n sinit ops) (runM n minit ops).
+Proof. exact history_refines_fmak. Qed.
+Print Assumptions C08_history_refines_fmak.
+(* (12a) The state-level statements behind (12), over the weaker invariant `FM.Inv true` (implied by `Inv`; a compiled
+   call may hold the registered Lambda of a name that has no creator, which is then the Lambda of an undefined
+   function): evaluation refines S and keeps tables and invariant ((1), (2) in the states reached WITH fmakunbound);
+   every defun keeps it and installs its definition ((5)); (fmakunbound 'name) keeps it and removes exactly the
+   definition of name - for every caller, compiled before or not - and nothing else. *)
+Theorem C08_invariant_weaker : forall orph st, Inv st -> FM.Inv orph st.
+Proof. exact Inv_weaker. Qed.
+Print Assumptions C08_invariant_weaker.
+Theorem C08_evaluation_refines_spec_fmak : forall ft n st en e rS oS,
+  FM.Inv true st -> Rel st ft -> evalS n ft en (out st) e = (rS, oS) ->
+  exists rM st', evalM n st en e = (rM, st') /\
+    (comparable rS = true -> rM = rS /\ out st' = oS) /\ (is_val rS = false -> is_val rM = false).
+Proof. exact evalM_sim_fmak. Qed.
+Print Assumptions C08_evaluation_refines_spec_fmak.
+Theorem C08_evaluation_preserves_invariant_fmak : forall n st en e r st', evalM n st en e = (r, st') ->
+  (heap st' = heap st /\ lambdas st' = lambdas st /\ funcs st' = funcs st) /\ (FM.Inv true st -> FM.Inv true st').
+Proof. exact evalM_good_fmak. Qed.
+Print Assumptions C08_evaluation_preserves_invariant_fmak.
+Theorem C08_defun_step_fmak : forall st ft name ps body clos, FM.Inv true st -> Rel st ft ->
+  FM.Inv true (defunM st name ps body clos) /\ Rel (defunM st name ps body clos) ((name, (ps, body, clos)) :: ft) /\
+  out (defunM st name ps body clos) = out st.
+Proof. exact defunM_step_fmak. Qed.
+Print Assumptions C08_defun_step_fmak.
+Theorem C08_fmakunbound_step : forall st ft name, FM.Inv true st -> Rel st ft ->
+  FM.Inv true (fmakM st name) /\ Rel (fmakM st name) (sremove name ft) /\ out (fmakM st name) = out st.
+Proof. exact fmakM_step_fmak. Qed.
+Print Assumptions C08_fmakunbound_step.
+(* (12b) The EXACTNESS theorems (9b) C08_history_exact / C08_history_exact_exists do NOT extend to histories with
+   fmakunbound, and this is a fact about the per-name lookup-time oracle of runL, not a defect of slip: after
+   (fmakunbound 'h) a call of h compiled earlier evaluates its arguments before undefined-function is signalled,
+   a call of h still in list form signals at once (both allowed by CLHS 3.1.2.1.2.3), so the lookup time differs
+   between call sites of the SAME name.  Witness 1 ((defun h (x) 1); (h (emit 5)) compiled; fmakunbound; run): M
+   emits 5, runL under the lookup times read off M's state (h has no creator: early) emits nothing.  Witness 2
+   ((h (emit 1) (if t (h (emit 5) 0) 0)) compiled - the arguments of `if` stay list forms -; fmakunbound; run): M
+   emits 1 only; runL emits nothing or 1 and 5 under EVERY list of per-name policies.  `no_fmak` in (9b) excludes
+   both, and so does the weaker hypothesis of (12c); what the undefined-function outcomes of the remaining histories
+   satisfy is (12): never a value, and equal to S wherever S is binding. *)
+Theorem C08_history_exact_fmak_refuted :
+  runM 10 minit fx_ops1 = [(Val (VSym "h"), []); (Val VNil, []); (Err EUndefined, [VInt 5%Z])] /\
+  runL 10 sinit fx_ops1 (pols_run 10 minit fx_ops1) = [(Val (VSym "h"), []); (Val VNil, []); (Err EUndefined, [])] /\
+  ~ Forall2 oex (runL 10 sinit fx_ops1 (pols_run 10 minit fx_ops1)) (runM 10 minit fx_ops1).
+Proof. exact history_exact_fmak_refuted. Qed.
+Print Assumptions C08_history_exact_fmak_refuted.
+Theorem C08_history_exact_exists_fmak_refuted :
+  runM 10 minit fx_ops2 = [(Val (VSym "h"), []); (Val VNil, []); (Err EUndefined, [VInt 1%Z])] /\
+  forall pols, ~ Forall2 oex (runL 10 sinit fx_ops2 pols) (runM 10 minit fx_ops2).
+Proof. exact history_exact_exists_fmak_refuted. Qed.
+Print Assumptions C08_history_exact_exists_fmak_refuted.
+(* (12c) Exactness under the weakest hypothesis found that excludes the witnesses of (12b): `fmak_clean n minit ops` -
+   along M's run, every (fmakunbound 'name) happens while NO slot holds a compiled call of name (the name was only
+   ever called from top-level list forms, or not at all).  Then every call site of an unbound name is a list form
+   or holds a placeholder made by CompileList, the lookup time is again a function of the name, and M's outcomes
+   are exactly runL's under the lookup times of M's run - undefined-function outcomes and the values emitted before
+   them included.  `no_fmak ops` implies `fmak_clean` (C08_no_fmak_clean), so these subsume C08_history_exact and
+   C08_history_exact_exists (kept).  FULL statement (exactness for EVERY history) is false for the per-name oracle
+   (12b); it needs a lookup time per call site in evalL - left open.  The hypothesis is satisfiable with OFmak and
+   rejects both witnesses (C08_fmak_clean_demo). *)
+Theorem C08_history_exact_fmak : forall n ops, fmak_clean n minit ops = true ->
+  Forall2 oex (runL n sinit ops (pols_run n minit ops)) (runM n minit ops).
+Proof. exact history_exact_fmak. Qed.
+Print Assumptions C08_history_exact_fmak.
+Theorem C08_history_exact_exists_fmak : forall n ops, fmak_clean n minit ops = true ->
+  exists pols, Forall2 oex (runL n sinit ops pols) (runM n minit ops).
+Proof. exact history_exact_exists_fmak. Qed.
+Print Assumptions C08_history_exact_exists_fmak.
+Theorem C08_no_fmak_clean : forall n ops m, no_fmak ops = true -> fmak_clean n m ops = true.
+Proof. exact no_fmak_clean. Qed.
+Print Assumptions C08_no_fmak_clean.
+Theorem C08_fmak_clean_demo :
+  fmak_clean 10 minit fx_ops3 = true /\ no_fmak fx_ops3 = false /\
+  runM 10 minit fx_ops3 = [(Val (VInt 1%Z), []); (Err EUndefined, []); (Val (VInt 1%Z), []); (Val (VInt 1%Z), [VInt 5%Z])] /\
+  fmak_clean 10 minit fx_ops1 = false /\ fmak_clean 10 minit fx_ops2 = false.
+Proof. exact fmak_clean_demo. Qed.
+Print Assumptions C08_fmak_clean_demo.
+(* (12d) The remaining state-level and program-level theorems - (3) k-th evaluation = first, (4) compile-then-evaluate,
+   (6) a redefinition is seen by cached code, (6b) forward references pass their arguments, (7b) order independence
+   of a block of definitions, (11) the program-level statement - over the weaker invariant, i.e. ALSO in every state
+   reached by a history with fmakunbound (C08_history_invariant_fmak: `FM.HInv true` holds after every history from
+   the empty state).  In property terms: after any sequence of definitions, compilations, evaluations and
+   un-definitions, a program means the same whatever the order of its definitions, compiled or not, first or k-th
+   evaluation.  These subsume (3), (4), (6), (6b), (7b), (11) by C08_invariant_weaker; the older ones are kept. *)
+Theorem C08_reevaluation_stable_fmak : forall k n st ft en o e rS oS,
+  FM.Inv true st -> Rel st ft -> evalS n ft en o e = (rS, oS) -> comparable rS = true ->
+  iterM k n st en o e = repeat (rS, oS) k.
+Proof. exact reeval_stable_fmak. Qed.
+Print Assumptions C08_reevaluation_stable_fmak.
+Theorem C08_compile_then_evaluate_fmak : forall n st ft en e rS oS,
+  FM.Inv true st -> Rel st ft -> evalS n ft en (out st) e = (rS, oS) -> comparable rS = true ->
+  (exists st1, evalM n st en e = (rS, st1) /\ out st1 = oS) /\
+  (exists st2, evalM n (compile_slot st e) en e = (rS, st2) /\ out st2 = oS).
+Proof. exact compile_transparent_fmak. Qed.
+Print Assumptions C08_compile_then_evaluate_fmak.
+Theorem C08_redefinition_seen_by_cached_code_fmak : forall n st ft en e g ps body clos r0 st0 rS oS,
+  FM.Inv true st -> Rel st ft -> evalM n st en e = (r0, st0) ->
+  evalS n ((g, (ps, body, clos)) :: ft) en (out st0) e = (rS, oS) -> comparable rS = true ->
+  exists st1, evalM n (defunM st0 g ps body clos) en e = (rS, st1) /\ out st1 = oS.
+Proof. exact late_binding_fmak. Qed.
+Print Assumptions C08_redefinition_seen_by_cached_code_fmak.
+Theorem C08_forward_reference_passes_arguments_fmak : forall n st ft en e g ps body clos rS oS,
+  FM.Inv true st -> Rel st ft -> slookup g (funcs st) = None ->
+  evalS n ((g, (ps, body, clos)) :: ft) en (out st) e = (rS, oS) -> comparable rS = true ->
+  exists st2, evalM n (defunM (compile_slot st e) g ps body clos) en e = (rS, st2) /\ out st2 = oS.
+Proof. exact forward_reference_fmak. Qed.
+Print Assumptions C08_forward_reference_passes_arguments_fmak.
+Theorem C08_order_independent_fmak : forall ds ds' st ft, FM.Inv true st -> Rel st ft ->
+  Permutation ds ds' -> NoDup (map fst ds) ->
+  forall n en e rS oS, evalS n (deftab ds ft) en (out st) e = (rS, oS) -> comparable rS = true ->
+  exists st1 st2, evalM n (defunsM st ds) en e = (rS, st1) /\ evalM n (defunsM st ds') en e = (rS, st2) /\
+                  out st1 = oS /\ out st2 = oS.
+Proof. exact order_independent_fmak. Qed.
+Print Assumptions C08_order_independent_fmak.
+Theorem C08_program_meaning_invariant_fmak : forall n m s es es' ds ds' mains cid cid' cmp cmp' k k',
+  FM.HInv true m s -> defs_are es ds -> defs_are es' ds' -> Permutation ds ds' -> NoDup (map fst ds) ->
+  Forall plain mains -> mains <> [] ->
+  comparable (fst (meaning n ds mains (sft s) (sgv s))) = true ->
+  runM n m (prog cid es mains cmp k) = expected n ds mains s cmp k /\
+  runM n m (prog cid' es' mains cmp' k') = expected n ds mains s cmp' k'.
+Proof. exact program_meaning_fmak. Qed.
+Print Assumptions C08_program_meaning_invariant_fmak.
+Theorem C08_history_invariant_fmak : forall n ops,
+  FM.HInv true (fold_left (fun m o => fst (stepM n m o)) ops minit) (fold_left (fun s o => fst (stepS n s o)) ops sinit).
+Proof. exact HInv_reachable_init. Qed.
+Print Assumptions C08_history_invariant_fmak.
